@@ -6,6 +6,7 @@ import (
 	"fmt"
 	"os"
 	"path/filepath"
+	"strconv"
 	"strings"
 	"testing"
 	"time"
@@ -421,4 +422,43 @@ func TestC19_seeds(t *testing.T) {
 
 func init() {
 	(&Prop[C19Case]{ID: "C19", Sub: "seeds", Rule: "replay", Check: checkC19}).Register()
+}
+
+// TestC19_corpus replays the committed native-fuzz corpus (inputs that reached new coverage in earlier
+// campaigns, /verif/corpus/FuzzC19_bytes) through the same check: the seconds-long replay tier of the fuzzer.
+func TestC19_corpus(t *testing.T) {
+	st := evid.New("C19", "corpus", "committed coverage-increasing inputs of earlier native fuzz campaigns (corpus/FuzzC19_bytes), decoded like the fuzz target and run through the same check")
+	defer st.Write()
+	dir := os.Getenv("VERIF_CORPUS")
+	if dir == "" {
+		dir = filepath.Join("..", "..", "corpus")
+	}
+	files, _ := filepath.Glob(filepath.Join(dir, "FuzzC19_bytes", "*"))
+	for _, f := range files {
+		b, err := os.ReadFile(f)
+		if err != nil {
+			continue
+		}
+		lines := strings.Split(string(b), "\n")
+		if len(lines) < 2 || !strings.HasPrefix(lines[1], "[]byte(") {
+			continue
+		}
+		lit := strings.TrimSuffix(strings.TrimPrefix(lines[1], "[]byte("), ")")
+		data, err := strconv.Unquote(lit)
+		if err != nil {
+			continue
+		}
+		c, ok := decodeC19([]byte(data))
+		if !ok {
+			continue
+		}
+		if err := propC19.safeCheck(c, st); err != nil {
+			path := evid.SaveFail("C19", "corpus", c, err.Error())
+			t.Fatalf("C19/corpus violated: %v\ncase file: %s", err, path)
+		}
+	}
+}
+
+func init() {
+	(&Prop[C19Case]{ID: "C19", Sub: "corpus", Rule: "replay", Check: checkC19}).Register()
 }
